@@ -73,6 +73,18 @@ theorem merge_nothing_else (hm : newMerger custom (some linkFn) inputs = .ok m) 
     rw [this.1] at hp
     exact (catSpec_prefix _ _).subset hp
 
+/-- spelled out: a returned record is a record its input delivers IN FRONT OF that input's first error
+(`Src.rest`), re-linked; what a reader would deliver after a record-level error (`Src.later`) is never
+returned, in any mode -/
+theorem merge_returns_only_records_in_front_of_errors (hm : newMerger custom (some linkFn) inputs = .ok m)
+    (hr : m.readAll H = (out, fin)) :
+    ∀ p, p ∈ out → ∃ inp r, inputs[p.1]? = some inp ∧ r ∈ inp.src.rest ∧
+      p.2 = relink (linksOf linkFn inputs) p.1 r := by
+  intro p hp
+  obtain ⟨i, s, r, hmem, hrm, rfl⟩ := (mem_delivered _ _ p).1 (merge_nothing_else H hm hr p hp)
+  obtain ⟨inp, hget, rfl⟩ := (mem_srcsOf inputs i s).1 hmem
+  exact ⟨inp, r, hget, hrm, rfl⟩
+
 /-! ### concatenation mode (sort order unsorted, or unknown with a nil less) -/
 
 /-- the output is the inputs one after the other -/
@@ -500,5 +512,153 @@ example : ∀ i s, (i, s) ∈ srcsOf exInputs → KeySorted (s.rest.map (relink 
 
 example : StrictWeak (fun a b : Rec => decide (a.pos < b.pos)) :=
   ⟨fun a => by simp, fun a b c => by simp; omega, fun a b c => by simp; omega⟩
+
+
+/-! ### non-vacuity with three inputs: every hypothesis-carrying theorem instantiated
+
+Scenario A — three coordinate-sorted inputs with headers [z, a], [a, c], [z, c] (merged [z, a, c]) and
+interleaved keys, a tie between inputs 0 and 2 on (z, 5), an unplaced record, mates on other references;
+input 1 returns a record-level error (not sticky: one more record follows it) after three records. -/
+
+def aSrc1 : Src :=
+  { rest := [rA 4 (some 0) 1 (some 1) 0, rA 5 (some 0) 7 none 1, rA 6 (some 1) 0 (some 0) 2], term := .err 7,
+    later := [([rA 7 (some 1) 9 none 4], .eof)] }
+
+def aInputs : List Input :=
+  [ { so := .coordinate, src := { rest := [rA 1 (some 0) 5 (some 1) 0, rA 2 (some 1) 2 none 1, rA 3 none (-1) (some 0) 2], term := .eof } },
+    { so := .coordinate, src := aSrc1 },
+    { so := .coordinate, src := { rest := [rA 8 (some 0) 1 none 0, rA 9 (some 0) 5 (some 1) 1, rA 10 (some 1) 3 (some 1) 2], term := .eof } } ]
+
+def aLink : LinkFn := fun i x => if i = 0 then x else if i = 1 then x + 1 else 2 * x
+
+def aM : Merger :=
+  match newMerger none (some aLink) aInputs with
+  | .ok m => m
+  | .error _ => { links := none, mode := .cat [] none }
+
+def aOut : List (Nat × Rec) := (aM.readAll scanHeap).1
+def aFin : Option Term := (aM.readAll scanHeap).2
+
+def a_hm : newMerger none (some aLink) aInputs = .ok aM := rfl
+def a_hr : aM.readAll scanHeap = (aOut, aFin) := rfl
+def a_hl : lessOf none aInputs = some lessByCoordinate := rfl
+
+/-- what comes out: (input, uid, merged Ref, merged MateRef); the record behind the error (uid 4) does not -/
+example : aOut.map (fun p => (p.1, p.2.uid, p.2.ref, p.2.mate)) =
+    [(2, 0, some 0, none), (0, 0, some 0, some 1), (2, 1, some 0, some 2), (1, 0, some 1, some 2), (0, 1, some 1, none),
+     (1, 1, some 1, none), (1, 2, some 2, some 1), (2, 2, some 2, some 2), (0, 2, none, some 0)] := by decide
+example : aFin = some (.err 7) := by decide
+
+def a_hs : ∀ i s, (i, s) ∈ srcsOf aInputs →
+    SortedBy lessByCoordinate (s.rest.map (relink (linksOf aLink aInputs) i)) := by
+  intro i s h
+  simp [srcsOf, enumFrom, aInputs] at h
+  rcases h with ⟨rfl, rfl⟩ | ⟨rfl, rfl⟩ | ⟨rfl, rfl⟩ <;>
+    simp [SortedBy, relink, linksOf, aInputs, aSrc1, aLink, rA, lessByCoordinate]
+
+def a_hkey : ∀ i s, (i, s) ∈ srcsOf aInputs → KeySorted (s.rest.map (relink (linksOf aLink aInputs) i)) := by
+  intro i s h
+  simp [srcsOf, enumFrom, aInputs] at h
+  rcases h with ⟨rfl, rfl⟩ | ⟨rfl, rfl⟩ | ⟨rfl, rfl⟩ <;>
+    simp [KeySorted, relink, linksOf, aInputs, aSrc1, aLink, rA, keyLt, coordKey]
+
+def aSrcRefs : List (List Name) := [[[122], [97]], [[97], [99]], [[122], [99]]]
+def aMerged : List Name := [[122], [97], [99]]
+
+def a_links : LinksOK aSrcRefs aMerged (linksOf aLink aInputs) := by
+  intro i names hn x hx
+  match i, hn with
+  | 0, hn => simp [aSrcRefs] at hn; subst hn; match x, hx with
+    | 0, _ => decide
+    | 1, _ => decide
+  | 1, hn => simp [aSrcRefs] at hn; subst hn; match x, hx with
+    | 0, _ => decide
+    | 1, _ => decide
+  | 2, hn => simp [aSrcRefs] at hn; subst hn; match x, hx with
+    | 0, _ => decide
+    | 1, _ => decide
+  | i + 3, hn => simp [aSrcRefs] at hn
+
+def a_range : RefsInRange aSrcRefs aInputs := by
+  intro i inp hi
+  match i, hi with
+  | 0, hi => simp [aInputs] at hi; subst hi; exact ⟨_, rfl, by simp [rA]⟩
+  | 1, hi => simp [aInputs] at hi; subst hi; exact ⟨_, rfl, by simp [rA, aSrc1]⟩
+  | 2, hi => simp [aInputs] at hi; subst hi; exact ⟨_, rfl, by simp [rA]⟩
+  | i + 3, hi => simp [aInputs] at hi
+
+/-- the theorems applied to scenario A: all their hypotheses hold together -/
+example : aOut.Perm (deliveredBy aLink aInputs) := merge_perm scanHeap a_hm a_hr (Or.inl (by simp [a_hl]))
+example : SortedBy (pairLess lessByCoordinate) aOut :=
+  merge_sorted_ties scanHeap a_hm a_hr a_hl lessByCoordinate_strictWeak a_hs
+example : SortedBy lessByCoordinate (aOut.map (·.2)) :=
+  merge_sorted scanHeap a_hm a_hr a_hl lessByCoordinate_strictWeak a_hs
+example : KeySorted (aOut.map (·.2)) := merge_sorted_coordinate scanHeap _ _ rfl a_hm a_hr a_hkey
+example : aOut.filter (fun p => p.1 == 1) = tagged (linksOf aLink aInputs) 1 aSrc1.rest :=
+  (merge_stable_per_input scanHeap a_hm a_hr 1 aSrc1 (by simp [srcsOf, enumFrom, aInputs])).2 (Or.inl (by simp [a_hl]))
+example : ∃ inp, inp ∈ aInputs ∧ inp.src.term = .err 7 :=
+  merge_error_is_an_inputs scanHeap a_hm a_hr 7 (by decide)
+example : ∃ e, aFin = some (.err e) ∧ ∃ inp, inp ∈ aInputs ∧ inp.src.term = .err e :=
+  merge_reports_error scanHeap a_hm a_hr ⟨_, List.mem_cons_of_mem _ List.mem_cons_self, by simp [aSrc1]⟩
+example : ∀ p, p ∈ aOut → ∃ inp names r, aInputs[p.1]? = some inp ∧ aSrcRefs[p.1]? = some names ∧ r ∈ inp.src.rest ∧
+      p.2.name = r.name ∧ p.2.pos = r.pos ∧ p.2.matePos = r.matePos ∧ p.2.uid = r.uid ∧
+      OwnedAs names aMerged r.ref p.2.ref ∧ OwnedAs names aMerged r.mate p.2.mate :=
+  merge_refs_owned scanHeap aSrcRefs aMerged a_hm a_hr a_links a_range
+example : aM.readAll scanHeap = aM.readAll scanHeapR :=
+  merge_heap_independent scanHeap scanHeapR a_hm a_hl lessByCoordinate_strictWeak
+example (spec : List (Nat × Rec)) (h1 : SortedBy (pairLess lessByCoordinate) spec)
+    (h2 : ∀ i s, (i, s) ∈ srcsOf aInputs → spec.filter (fun p => p.1 == i) = tagged (linksOf aLink aInputs) i s.rest)
+    (h3 : ∀ p, p ∈ spec → ∃ s, (p.1, s) ∈ srcsOf aInputs) : spec = aOut :=
+  merge_is_the_stable_merge scanHeap a_hm a_hr a_hl lessByCoordinate_strictWeak a_hs spec h1 h2 h3
+/-- … and the hypotheses of `merge_is_the_stable_merge` about `spec` are satisfiable: by the output itself -/
+example : SortedBy (pairLess lessByCoordinate) aOut ∧
+    (∀ i s, (i, s) ∈ srcsOf aInputs → aOut.filter (fun p => p.1 == i) = tagged (linksOf aLink aInputs) i s.rest) ∧
+    (∀ p, p ∈ aOut → ∃ s, (p.1, s) ∈ srcsOf aInputs) :=
+  ⟨merge_sorted_ties scanHeap a_hm a_hr a_hl lessByCoordinate_strictWeak a_hs,
+   fun i s hi => (merge_stable_per_input scanHeap a_hm a_hr i s hi).2 (Or.inl (by simp [a_hl])),
+   fun p hp => by
+     obtain ⟨j, s, r, hmem, _, rfl⟩ := (mem_delivered _ _ p).1 (merge_nothing_else scanHeap a_hm a_hr p hp)
+     exact ⟨s, hmem⟩⟩
+/-- `relinked_sorted_of_monotone`: input 1 (header [a, c]) sorted by its own header, links 0 ↦ 1, 1 ↦ 2 monotone -/
+example : KeySorted ([rA 4 (some 0) 1 (some 1) 0, rA 5 (some 0) 7 none 1, rA 6 (some 1) 0 (some 0) 2].map (relink (some aLink) 1)) :=
+  relinked_sorted_of_monotone aLink 1 _ (by intro x y h; simp [aLink]; omega) (by simp [KeySorted, rA, keyLt, coordKey])
+
+/-! Scenario B — three unsorted inputs, concatenated; all end cleanly.
+Scenario C — the same with the second input returning a record-level error (not sticky) after its first record. -/
+
+def bInputs : List Input :=
+  [ { so := .unsorted, src := { rest := [rA 3 (some 1) 9 none 0, rA 1 (some 0) 2 (some 1) 1], term := .eof } },
+    { so := .unsorted, src := { rest := [rA 2 (some 0) 5 none 0, rA 2 none (-1) none 1], term := .eof } },
+    { so := .unsorted, src := { rest := [rA 1 (some 1) 1 (some 0) 0], term := .eof } } ]
+
+def cInputs : List Input :=
+  [ { so := .unsorted, src := { rest := [rA 3 (some 1) 9 none 0, rA 1 (some 0) 2 (some 1) 1], term := .eof } },
+    { so := .unsorted, src := { rest := [rA 2 (some 0) 5 none 0], term := .err 4, later := [([rA 2 none (-1) none 2], .eof)] } },
+    { so := .unsorted, src := { rest := [rA 1 (some 1) 1 (some 0) 0], term := .err 9 } } ]
+
+def bM : Merger := match newMerger none (some aLink) bInputs with | .ok m => m | .error _ => { links := none, mode := .cat [] none }
+def cM : Merger := match newMerger none (some aLink) cInputs with | .ok m => m | .error _ => { links := none, mode := .cat [] none }
+def b_hm : newMerger none (some aLink) bInputs = .ok bM := rfl
+def c_hm : newMerger none (some aLink) cInputs = .ok cM := rfl
+def b_hr : bM.readAll scanHeap = ((bM.readAll scanHeap).1, (bM.readAll scanHeap).2) := rfl
+def c_hr : cM.readAll scanHeap = ((cM.readAll scanHeap).1, (cM.readAll scanHeap).2) := rfl
+
+example : (bM.readAll scanHeap).1.map (fun p => (p.1, p.2.uid)) = [(0, 0), (0, 1), (1, 0), (1, 1), (2, 0)] := by decide
+example : (cM.readAll scanHeap).1.map (fun p => (p.1, p.2.uid)) = [(0, 0), (0, 1), (1, 0)] := by decide
+example : (cM.readAll scanHeap).2 = some (.err 4) := by decide
+
+example : (bM.readAll scanHeap).1 = deliveredBy aLink bInputs ∧ (bM.readAll scanHeap).2 = some .eof :=
+  merge_concatenates scanHeap b_hm b_hr rfl (by simp [bInputs])
+example : (∀ inp, inp ∈ bInputs → inp.src.term = .eof) ∧ (bM.readAll scanHeap).1.Perm (deliveredBy aLink bInputs) :=
+  merge_eof_only_after_all scanHeap b_hm b_hr (by decide)
+example : (cM.readAll scanHeap).1 <+: deliveredBy aLink cInputs :=
+  merge_concatenation_prefix scanHeap c_hm c_hr rfl
+example : ∃ pre p post, srcsOf cInputs = pre ++ p :: post ∧ (∀ q, q ∈ pre → q.2.term = .eof) ∧ p.2.term = .err 4 ∧
+      (cM.readAll scanHeap).1 = delivered (linksOf aLink cInputs) (pre ++ [p]) :=
+  merge_concatenation_stops_at_first_error scanHeap c_hm c_hr rfl 4 (by decide)
+/-- `read_after_final` on scenario C: after the record-level error of input 1 the merger is asked again -/
+example : ∀ m1, (cM.advance scanHeap 3).read scanHeap = (.fin (.err 4), m1) → m1.read scanHeap = (.fin (.err 4), m1) :=
+  fun m1 h => read_after_final scanHeap _ m1 _ h
+example : ∃ m1, (cM.advance scanHeap 3).read scanHeap = (.fin (.err 4), m1) := ⟨_, rfl⟩
 
 end Hts.Props.C18
